@@ -16,7 +16,9 @@ MANIFEST = dict(
          "C16_mem_version_rule_is_source: MemoryKVVStore::put_with_version / get_version / put / delete are translated "
          "statement by statement from vls-persist/src/kvv/memory.rs on every run (Gen/KvvGen.v) and proved equal to the "
          "model's m_pwv / version_of / m_put on every store, key, version and value, both build profiles "
-         "(put_batch, get_prefix and the other two stores are not translated).  The models are "
+         "; C16_mem_batch_is_source: MemoryKVVStore::put_batch (the staged map, the loop with continue / return, the "
+         "merge) likewise, equal to the model's m_batch on every sorted store "
+         "(get_prefix and the other two stores are not translated).  The models are "
          "run against the three real stores on identical request sequences on every run (breadth-first over a small "
          "alphabet with state de-duplication, random transaction-shaped histories, a malformed stream, a corpus of past "
          "disagreements), and monitors check each clause of the property on the implementations' answers.",
@@ -43,7 +45,7 @@ PINNED = [
     "C16_cloud_restart_local_version_never_lowered",
     "C16_restore_repeated_key_refused", "C16_plain_restore_repeated_key_refused", "C16_nonvacuous_repeated_key",
     "C16_nonvacuous_plain", "C16_nonvacuous_cloud", "C16_nonvacuous_restore",
-    "C16_mem_version_rule_is_source",
+    "C16_mem_version_rule_is_source", "C16_mem_batch_is_source",
 ]
 
 # the one class of behaviour that may be listed in KNOWN_FINDINGS.json (id below): a commit reached
@@ -79,7 +81,7 @@ def run(res):
     try:
         lib.proof_stage(res, "C16.v", "Props.C16", PINNED, pre=regen)
     except gen_rustfn.GenError as e:
-        res.violation("the translator cannot read MemoryKVVStore::put_with_version / get_version / put / delete or a "
+        res.violation("the translator cannot read MemoryKVVStore::put_with_version / get_version / put / delete / put_batch or a "
                       "declaration they use (a construct outside its fragment): %s" % e,
                       {"translator": "tools/gen_rustfn.py", "source": "vls-persist/src/kvv/memory.rs (+ kvv.rs, vls-core/src/persist/mod.rs)",
                        "error": str(e), "theorem": "C16_mem_version_rule_is_source"}, has_input=False)
